@@ -1041,6 +1041,25 @@ def check_type(S, j, op, o, text, allowed_extra=()):
         fd = op.get("fault") or {}
         at = fd.get("at", fd.get("a"))
         if isinstance(at, int) and isinstance(line, int) and "/*" not in text and "import" not in text and op.get("via") not in ("file", "run_file", "header_file"):
+            # exact position where it is known: a character no token starts with is reported
+            # where it stands; a closing bracket as the very first character likewise
+            exact = None
+            if fd.get("kind") == "flip" and at < len(text) and "//" not in text[:at]:
+                ch = text[at]
+                if ch in "$@~#`\\\0é\"" or (at == 0 and ch in "]}>|:,*"):
+                    exact = (text.count("\n", 0, at) + 1, at - text.rfind("\n", 0, at))
+            if exact is not None and len(fd.get("ch", "")) == 1:
+                # the parser may already object to the token that the character cut short, so
+                # anything from the start of that run of non-blank characters up to the
+                # character itself is the offending token's position
+                lo = at
+                while lo > 0 and not text[lo - 1].isspace():
+                    lo -= 1
+                ok_cols = range(lo - text.rfind("\n", 0, at), exact[1] + 1)
+                if line != exact[0] or col not in ok_cols:
+                    S.viol.add("C16", "parse_error_position", "wrong_position", o["where"], "character %r at line %d column %d reported at line %r column %r" % (text[at], exact[0], exact[1], line, col), op=j)
+                else:
+                    S.probe("exact_position_checked")
             first_line = text.count("\n", 0, min(at, len(text))) + 1
             if line < first_line:
                 S.viol.add("C16", "parse_error_position", "before_the_fault", o["where"], "error reported on line %d, the text is intact up to line %d" % (line, first_line), op=j)
